@@ -96,6 +96,10 @@ def oracle(rt, p):
     return _ORACLE[key]
 
 
+def oks_of(rt):
+    return [p for p in range(len(PAYLOADS)) if oracle(rt, p)[0]]
+
+
 def oks(p):
     return [rt for rt in range(0, 7) if oracle(rt, p)[0]]
 
@@ -422,6 +426,13 @@ def reply_obj(real, rep):
     return obj
 
 
+def traced(case, evno):
+    """Is the state after script event `evno` part of the observation?  Always, except in the
+    histories with hundreds of requests (a state is O(k) there): every `trace_every`-th and the last."""
+    every = case.get("trace_every")
+    return not every or evno % every == 0 or evno == len(case["evs"]) - 1
+
+
 async def _run_script(case, loop):
     import concurrent.futures, queue
     ep = Endpoint(loop)
@@ -457,6 +468,7 @@ async def _run_script(case, loop):
         deliver = ep.feed
     proto = ep.protocol
     reqs, uuids, trace = [], [], []
+    uuid_no = {}              # uuid -> its index in uuids (histories with hundreds of requests)
     hooks_out = 0
     ngate = [0]
 
@@ -470,8 +482,8 @@ async def _run_script(case, loop):
         return r[1]
 
     def canon_id(x):
-        if isinstance(x, str) and x in uuids:
-            return ["u", uuids.index(x)]
+        if isinstance(x, str) and x in uuid_no:
+            return ["u", uuid_no[x]]
         if isinstance(x, bool) or not isinstance(x, (int, str)):
             return ["?", repr(x)]
         return ["i", x] if isinstance(x, int) else ["s", x]
@@ -509,7 +521,7 @@ async def _run_script(case, loop):
         return cb
 
     try:
-        for e in case["evs"]:
+        for evno, e in enumerate(case["evs"]):
             k = e[0]
             h0 = ep.hooks
             if k == "send":
@@ -584,6 +596,7 @@ async def _run_script(case, loop):
                             rq.fut.add_done_callback(ucb)
                 written = requests_written()
                 if mid is None and len(written) > before:
+                    uuid_no.setdefault(written[before]["id"], len(uuids))
                     uuids.append(written[before]["id"])      # (follow-ups sent by callbacks come after it)
             elif k == "res":
                 deliver(reply_obj(real_id(e[1]), ["res", e[2]]))
@@ -612,6 +625,8 @@ async def _run_script(case, loop):
             await _spin()
             if k not in IN_EVENTS:
                 hooks_out += ep.hooks - h0
+            if not traced(case, evno):
+                continue
             fk, rk = table_keys(proto)
             trace.append([[[rq.state_detail()[0], len(rq.calls)] for rq in reqs], hooks_out,
                           len(requests_written()), sort_ids([canon_id(x) for x in fk]),
@@ -998,6 +1013,11 @@ class C05(core.Property):
                 replies = [self._reply(rng, sends[j], ids[j]) for j in range(k)]
                 for perm in itertools.permutations(range(k)):
                     cases.append({"evs": sends + [replies[j] for j in perm]})
+        # (2L) MANY outstanding requests (the quantifier puts no bound on k): k in the hundreds, all
+        #      sent before the peer answers any, mixed methods / id kinds / requesters / callbacks,
+        #      then one reply each - oldest first, newest first, shuffled - plus a few duplicates
+        for k, order in self._large_plan(chk, rng):
+            cases.append(self._large(rng, k, order))
         # (3) random histories
         for _ in range(chk.n(780, 15000)):
             cases.append(self._random(rng))
@@ -1046,6 +1066,53 @@ class C05(core.Property):
                 ids.append(["u", nuu]); nuu += 1
             sends.append(["send", ms[j], cb, mid, kind])
         return sends, ids
+
+    @staticmethod
+    def _large_plan(chk, rng):
+        ks = [rng.randint(300, 340), rng.randint(341, 420)] if chk.quick else \
+             [rng.randint(257, 300), rng.randint(300, 400), rng.randint(401, 600), 600]
+        orders = ["oldest", "newest", "shuffled"]
+        if chk.quick:
+            # every order once, on sizes drawn from the two ranges
+            return [(ks[0], "oldest"), (ks[1], "newest"), (ks[0], "shuffled")]
+        return [(k, o) for k in ks for o in orders]
+
+    def _large(self, rng, k, order):
+        sends, ids, nuu = [], [], 0
+        for j in range(k):
+            mi = rng.randrange(len(METHODS))
+            r = rng.random()
+            kind = "a" if r < 0.10 else "t" if r < 0.12 else "p"
+            cb = 0 if kind == "a" else rng.randrange(2)
+            r = rng.random()
+            if r < 0.15:
+                mid = ["i", 1000 + j]
+            elif r < 0.30:
+                mid = ["s", "q%d" % j]
+            else:
+                mid = None
+            if mid is None:
+                ids.append(["u", nuu]); nuu += 1
+            else:
+                ids.append(mid)
+            sends.append(["send", mi, cb, mid, kind])
+        idx = list(range(k))
+        if order == "newest":
+            idx.reverse()
+        elif order == "shuffled":
+            rng.shuffle(idx)
+        def reply(j):
+            rep = self._reply(rng, sends[j], ids[j], valid_p=1.0)
+            if rep[0] == "err" and rep[2] not in CODES_INT32:
+                rep[2] = rng.choice(CODES_INT32)
+            if rep[0] == "res" and rep[2] in SHAPED:         # (family 1d's; such a history is not shrunk)
+                rep[2] = rng.choice([p for p in oks_of(METHODS[sends[j][1]][1]) if p not in SHAPED])
+            return rep
+        replies = [reply(j) for j in idx]
+        for _ in range(3):                                   # a few duplicates, anywhere after the original
+            a = rng.randrange(k)
+            replies.insert(rng.randint(a + 1, len(replies)), reply(idx[a]))
+        return {"evs": sends + replies, "stream": None, "large": [k, order], "trace_every": 1 + k // 8}
 
     def _reply(self, rng, send, ref, valid_p=0.93):
         rt = METHODS[send[1]][1]
@@ -1180,13 +1247,19 @@ class C05(core.Property):
     def model_output(self, c, toks):
         t = Toks(toks)
 
+        keep = [j for n, j in enumerate(self.expand(c)[1]) if traced(c, n)]
+        wanted, nth = set(keep), [-1]
+
         def digest():
+            nth[0] += 1
             futs = t.lst(lambda: [t.int(), t.int()])
             errs, nout = t.int(), t.int()
             fk, rk = t.lst(t.id), t.lst(t.id)
+            if nth[0] not in wanted:
+                return None
             return [futs, errs, nout, sort_ids(fk), sort_ids(rk)]
         trace = t.lst(digest)
-        trace = [trace[j] if j >= 0 else [[], 0, 0, [], []] for j in self.expand(c)[1]]
+        trace = [trace[j] if j >= 0 else [[], 0, 0, [], []] for j in keep]
         final = t.lst(lambda: [t.fstate(), t.int()])
 
         def wire():
@@ -1266,6 +1339,12 @@ class C05(core.Property):
         if any((e[0] in ("res",) and e[2] in SHAPED) or e[0] == "note" for e in evs):
             return          # judged against module-level state of the process (class caches): a smaller
                             # candidate may fail only because of what earlier cases left behind
+        if len(evs) > 40:
+            # a long history: halve it from the end first (a prefix of a script is a script)
+            for cut in (len(evs) // 2, (3 * len(evs)) // 4, len(evs) - 8, len(evs) - 1):
+                d = dict(c); d["evs"] = evs[:cut]
+                if 0 < cut < len(evs) and wellformed(d):
+                    yield d
         for i in range(len(evs)):
             d = dict(c); d["evs"] = evs[:i] + evs[i + 1:]
             if evs[i][0] == "send":
